@@ -37,11 +37,24 @@ converters=p)`).  The effective flag is the explicit argument, else the converte
 read as in the main stream (the lookup for T itself succeeds) from a by-construction table that is checked against
 the implementation's lookup; combinations inside the recorded F36 region (a hook that exists and fails inside:
 Optional / list of an unsupported class; NewType of one on BaseConverter) are not generated.
+
+REFERENCE-CYCLE STREAM (`run_cycles`; oracle computed by the harness itself + model op FIELDCYCLE): cycles of 1-3 attrs classes
+whose `link` field wraps the next class (bare, Final, Annotated, NewType, PEP 695 alias, Dict / Mapping / List / Sequence /
+Tuple / Optional / `C | None` / Dict[str, List[C]] / ...), with or without K; every class of the cycle as the entry point, on
+fresh converters and on one shared by all entries.  While a class hook is generated the lookup for such a type ends in a
+RecursionError: that is NOT "no hook can be found" -- the value is K(hook_T(raw)) (Lean: `Disp.cycle`, `C20_rule_cycle`).
+
+REGISTRATION-HISTORY STREAM (`run_history`; oracle computed from the history + model op FIELDHIST): ONE converter is used,
+configured further (register_structure_hook / _func / _factory for plain classes HT0-2, second versions, copy()) and used again,
+always starting with a use before any registration; the rule holds under the registrations made SO FAR
+(Lean: FieldConv/History.lean, `C20_history_current`: the handler choice is a function of the current registrations).
 """
 from __future__ import annotations
 
 import itertools
+import json
 import os
+import random as _random
 import sys
 from typing import Optional
 
@@ -868,6 +881,446 @@ def run_wrapped(chk, n_classes, stats):
         prune_linecache()
 
 
+# ------------------------------------------------------------------ reference cycles (implementation-only oracle)
+# Classes that refer to themselves or to each other in a cycle of length 1-3.  Every class has a data field `v: int` and a
+# `link` to the next class of the cycle whose type wraps that class (bare, Final, Annotated, NewType, a PEP 695 alias,
+# Dict / Mapping / List / Sequence / Tuple[..., ...] / Tuple[C, int] / Optional / `C | None` / Dict[str, List[C]] / Optional[Dict]),
+# with or without a field converter K, always defaulted to None (so that payloads are finite).  While the hook of a class
+# is being generated the lookup for such a type ends in a RecursionError (the class is already being generated): the
+# documented rule is unchanged -- "T's structure hook exists", the value is K(hook_T(raw)) -- and cattrs binds the hook late.
+# The oracle computes hook_T(raw) ITSELF from the structure of T (it does not ask cattrs), for every class of the cycle
+# as the entry point, on fresh converters and on one converter shared by all entries.
+C_WRAPS = {
+    "bare": "{c}", "final": "Final[{c}]", "annotated": "Annotated[{c}, 'm']", "newtype": "Nt{c}", "alias": "Al{c}",
+    "dict": "Dict[str, {c}]", "mapping": "Mapping[str, {c}]", "list": "List[{c}]", "sequence": "Sequence[{c}]",
+    "tuple-var": "Tuple[{c}, ...]", "tuple2": "Tuple[{c}, int]", "optional": "Optional[{c}]", "pep604": "{c} | None",
+    "dict-list": "Dict[str, List[{c}]]", "optional-dict": "Optional[Dict[str, {c}]]", "annotated-newtype": "Annotated[Nt{c}, 'q']",
+    "dict-newtype": "Dict[str, Nt{c}]",
+}
+C_NO_BASECONVERTER = ("annotated", "annotated-newtype")    # BaseConverter has no Annotated support
+
+
+def _ktag_cycle(v):
+    return ("K", v)
+
+
+def c_make_world(spec):
+    """spec: [{'wrap': name, 'link_k': bool, 'v_k': bool}] -- class i links to class (i + 1) % n"""
+    n = len(spec)
+    uid = next(_uid)
+    names = ["Cy%d_%d" % (uid, i) for i in range(n)]
+    lines = ["from typing import *", "import attrs"]
+    for i, s in enumerate(spec):
+        nxt = names[(i + 1) % n]
+        lines.append("@attrs.define\nclass %s:\n    v: int = attrs.field(%s)\n    link: %r = attrs.field(%sdefault=None)\n" % (
+            names[i], "converter=K" if s["v_k"] else "", C_WRAPS[s["wrap"]].format(c=nxt), "converter=K, " if s["link_k"] else ""))
+    for nm in names:
+        lines.append("Nt%s = NewType('Nt%s', %s)\ntype Al%s = %s" % (nm, nm, nm, nm, nm))
+    ns = {"K": _ktag_cycle}
+    exec(compile("\n".join(lines), "<c20 cycle %d>" % uid, "exec", flags=0, dont_inherit=True), ns)
+    classes = [ns[nm] for nm in names]
+    for cl in classes:
+        attrs.resolve_types(cl, ns)
+    return classes, "\n".join(lines)
+
+
+C_NONE_OK = ("optional", "pep604", "optional-dict")
+C_COLLECTION = ("dict", "mapping", "optional-dict", "dict-newtype", "list", "sequence", "tuple-var", "dict-list")
+
+
+def c_payload(rng, spec, i, depth):
+    """a valid raw payload for class i; the links are followed `depth` more times, then the chain ends: link absent,
+    None (where the type allows it) or an empty collection"""
+    out = {"v": rng.choice([3, "4", 0])}
+    w = spec[i]["wrap"]
+    if depth > 0 and rng.random() < 0.9:
+        out["link"] = c_wrap_payload(rng, spec, i, depth)
+        return out
+    ends = ["absent"] + (["none"] if w in C_NONE_OK else []) + (["empty"] if w in C_COLLECTION else [])
+    end = rng.choice(ends)
+    if end == "none":
+        out["link"] = None
+    elif end == "empty":
+        out["link"] = [] if w in ("list", "sequence", "tuple-var") else {}
+    return out
+
+
+def c_wrap_payload(rng, spec, i, depth):
+    w = spec[i]["wrap"]
+    j = (i + 1) % len(spec)
+    inner = lambda: c_payload(rng, spec, j, depth - 1)  # noqa: E731
+    if w in ("bare", "final", "annotated", "newtype", "alias", "annotated-newtype", "optional", "pep604"):
+        return inner()
+    if w in ("dict", "mapping", "optional-dict", "dict-newtype"):
+        return {k: inner() for k in rng.sample(["a", "b", "c"], rng.randint(1, 2))}
+    if w in ("list", "sequence", "tuple-var"):
+        return [inner() for _ in range(rng.randint(1, 2))]
+    if w == "tuple2":
+        return [inner(), rng.choice([1, "2"])]
+    if w == "dict-list":
+        return {k: [inner() for _ in range(rng.randint(0, 2))] for k in rng.sample(["a", "b"], rng.randint(1, 2))}
+    raise ValueError(w)
+
+
+def c_expect_class(spec, classes, prefer, i, raw):
+    """the documented rule, computed by the oracle itself: -> canonical value; raises on an invalid payload"""
+    s = spec[i]
+    v = raw["v"]
+    v = v if (s["v_k"] and prefer) else int(v)
+    fields = [("v", ("K", v) if s["v_k"] else v)]
+    if "link" in raw:
+        lr = raw["link"]
+        if s["link_k"] and prefer:
+            link = ("K", lr)
+        else:
+            link = c_expect_wrap(spec, classes, prefer, i, lr)
+            link = ("K", link) if s["link_k"] else link
+    else:
+        link = ("K", None) if s["link_k"] else None
+    fields.append(("link", link))
+    return ("I", classes[i].__name__, fields)
+
+
+def c_expect_wrap(spec, classes, prefer, i, raw):
+    w = spec[i]["wrap"]
+    j = (i + 1) % len(spec)
+    rec = lambda r: c_expect_class(spec, classes, prefer, j, r)  # noqa: E731
+    if w in ("optional", "pep604", "optional-dict") and raw is None:
+        return None
+    if w in ("bare", "final", "annotated", "newtype", "alias", "annotated-newtype", "optional", "pep604"):
+        return rec(raw)
+    if w in ("dict", "mapping", "optional-dict", "dict-newtype"):
+        return {k: rec(r) for k, r in raw.items()}
+    if w in ("list", "sequence"):
+        return [rec(r) for r in raw]
+    if w == "tuple-var":
+        return tuple(rec(r) for r in raw)
+    if w == "tuple2":
+        return (rec(raw[0]), int(raw[1]))
+    if w == "dict-list":
+        return {k: [rec(r) for r in rs] for k, rs in raw.items()}
+    raise ValueError(w)
+
+
+def s_abs(v, classes=()):
+    """python value of the cycle / history streams -> abstract object term (terms.obj_sx); instances by class index"""
+    if isinstance(v, HVal):
+        return ("t", [("s", "HVal"), ("i", v.key[0]), ("i", v.key[1]), s_abs(v.key[2], classes)])
+    if attrs.has(type(v)):
+        return ("I", classes.index(type(v)) if type(v) in classes else 0,
+                [(a.name, s_abs(getattr(v, a.name), classes)) for a in attrs.fields(type(v))])
+    if v is None:
+        return ("N",)
+    if isinstance(v, bool):
+        return ("b", v)
+    if isinstance(v, int):
+        return ("i", v)
+    if isinstance(v, str):
+        return ("s", v)
+    if isinstance(v, tuple):
+        return ("t", [s_abs(x, classes) for x in v])
+    if isinstance(v, list):
+        return ("l", [s_abs(x, classes) for x in v])
+    if isinstance(v, dict):
+        return ("d", [(s_abs(k, classes), s_abs(x, classes)) for k, x in v.items()])
+    raise Unrepresentable(repr(v))
+
+
+def s_model_outcome(p):
+    """one `<outcome>` of a FIELDHIST / FIELDCYCLE reply -> canonical text"""
+    if p == "unmodelled":
+        return None
+    if p[0] == "err":
+        return "err"
+    return terms.canon_sx(terms.obj_of_px(p[1]))
+
+
+def c_canon(v):
+    """canonical form of a structured value (instances of attrs classes -> ('I', class name, fields))"""
+    if attrs.has(type(v)):
+        return ("I", type(v).__name__, [(a.name, c_canon(getattr(v, a.name))) for a in attrs.fields(type(v))])
+    if isinstance(v, tuple):
+        return tuple(c_canon(x) for x in v)
+    if isinstance(v, list):
+        return [c_canon(x) for x in v]
+    if isinstance(v, dict):
+        return {k: c_canon(x) for k, x in v.items()}
+    return v
+
+
+def run_cycles(chk, drv, n_worlds, stats):
+    r = chk.rng
+    cfgs = [c for c in all_cfgs(legacy=(False,)) if not c["tuple"]]
+    wraps = sorted(C_WRAPS)
+    for wi in range(n_worlds):
+        n = r.choice([1, 1, 2, 2, 3])
+        # every wrapper closes a cycle with a converter field in some world of the run
+        spec = [{"wrap": wraps[wi % len(wraps)] if i == 0 else r.choice(wraps), "link_k": (i == 0) or r.random() < 0.5,
+                 "v_k": r.random() < 0.3} for i in range(n)]
+        if wi % 5 == 4:
+            spec[0]["link_k"] = False
+        r.shuffle(spec)
+        classes, source = c_make_world(spec)
+        desc = " -> ".join("C%d(link: %s%s%s)" % (i, s["wrap"], " conv=K" if s["link_k"] else "", " v:conv=K" if s["v_k"] else "")
+                           for i, s in enumerate(spec)) + " -> C0"
+        no_base = any(s["wrap"] in C_NO_BASECONVERTER for s in spec)
+        payloads = [[c_payload(r, spec, i, r.randint(1, 3)) for _ in range(2)] for i in range(n)]
+        for c in cfgs:
+            if no_base and not c["gen"]:
+                chk.note("cycle:not-generated(BaseConverter-Annotated)")
+                continue
+            shared = make_converter(c)
+            order = list(range(n))
+            r.shuffle(order)
+            for entry in order:
+                for pl in payloads[entry]:
+                    want = c_expect_class(spec, classes, c["prefer"], entry, pl)
+                    # model observable: FIELDCYCLE (`Disp.cycle` / `Handler.late` of FieldConv/Model.lean, theorem `C20_rule_cycle`)
+                    rm = drv.ask("FIELDCYCLE %s (cycle %s) %d %s" % (
+                        fcfg_sx(c), " ".join("(c %s %d %d)" % (terms.esc(s["wrap"]), s["link_k"], s["v_k"]) for s in spec),
+                        entry, terms.obj_sx(s_abs(pl))))
+                    if not (rm.startswith("(ok") or rm.startswith("(err") or rm == "unmodelled"):
+                        raise lean.InfraError("driver rejected FIELDCYCLE: " + rm)
+                    om = s_model_outcome(terms.parse_sx(rm))
+                    for how, conv in (("fresh", make_converter(c)), ("shared", shared)):
+                        try:
+                            inst = conv.structure(pl, classes[entry])
+                            got = c_canon(inst)
+                        except Exception as e:  # noqa: BLE001
+                            inst, got = None, ("err", type(e).__name__)
+                        if om is None:
+                            chk.unmodelled += 1
+                        elif how == "fresh":
+                            oi = "err" if inst is None else terms.canon_sx(s_abs(inst, classes))
+                            chk.note("corr:FIELDCYCLE")
+                            if oi != om and got == want:
+                                stats["corr_cycle"].append((dict(cfg=c, spec=spec, entry=entry, payload=repr(pl), op="corr-cycle"), oi, om))
+                            elif oi != om:
+                                stats["corr_fail_with_oracle_fail"] += 1
+                        chk.count("cycle|" + cfg_name(c) + "|" + desc + "|%d|" % entry + repr(pl),
+                                  nontrivial=any(s["link_k"] for s in spec),
+                                  sample={"cfg": cfg_name(c), "cycle": desc, "entry": entry, "payload": repr(pl), "impl": repr(got)[:200]})
+                        chk.note("cycle:cfg:" + cfg_name(c), "cycle:len:%d" % n, "cycle:converter:" + how,
+                                 "cycle:outcome:" + ("err" if got[0] == "err" else "ok"))
+                        for s in spec:
+                            chk.note("cycle:link:%s/%s" % (s["wrap"], "K" if s["link_k"] else "noK"))
+                        stats["cycles"] += 1
+                        if got != want:
+                            stats["oracle_fail"] += 1
+                            chk.violation(
+                                f"C20 oracle (reference cycles): structuring {pl!r} as C{entry} of the cycle {desc} on a {how} converter gives "
+                                f"{got!r:.400}, the documented rule (K(hook_T(raw)) / K(raw) with the flag) gives {want!r:.400} [{cfg_name(c)}]",
+                                {"op": "cycle-oracle", "cfg": c, "spec": spec, "entry": entry, "payload": repr(pl), "source": source,
+                                 "impl": repr(got), "expected": repr(want), "converter": how})
+        prune_linecache()
+
+
+# ------------------------------------------------------------------ registration histories (implementation-only oracle)
+# ONE converter is used, configured further, and used again: structure classes whose converter fields have a type T that
+# has no hook yet, THEN register a hook for T (register_structure_hook / _func / _factory; later possibly a second
+# version, or a copy() of the converter is taken and used from then on), THEN structure again -- the same class, another
+# class with a field of type T, a class that nests one.  The rule speaks about the hooks that exist WHEN a value is
+# structured: the handler choice is a function of the CURRENT registrations (Lean: `C20_history_current`), exactly what a
+# converter that had the hooks from the start does.  The oracle computes the rule itself from the history so far.
+class HVal:
+    """what the hook registered for a history type returns: remembers the type, the hook version and the raw value"""
+
+    def __init__(self, ty, ver, raw):
+        self.key = (ty, ver, raw)
+
+    def __eq__(self, o):
+        return isinstance(o, HVal) and self.key == o.key
+
+    def __hash__(self):
+        return hash(repr(self.key))
+
+    def __repr__(self):
+        return "HVal%r" % (self.key,)
+
+
+H_TYPES = [type("HT%d" % i, (), {}) for i in range(3)]
+H_APIS = ["register_structure_hook", "register_structure_hook_func", "register_structure_hook_factory"]
+
+
+def h_register(conv, j, api, ver):
+    t = H_TYPES[j]
+
+    def hook(v, _, j=j, ver=ver):
+        if v == "boom":
+            raise ValueError("hook refuses")
+        return HVal(j, ver, v)
+    if api == "register_structure_hook":
+        conv.register_structure_hook(t, hook)
+    elif api == "register_structure_hook_func":
+        conv.register_structure_hook_func(lambda x, t=t: x is t, hook)
+    else:
+        conv.register_structure_hook_factory(lambda x, t=t: x is t, lambda _t, hook=hook: hook)
+
+
+def h_make_classes(rng):
+    """-> [(class, [field descr])]; field descr {'name', 'kind': 'ht'|'int'|'untyped'|'nested', 'j', 'k'}"""
+    out = []
+    n_cls = rng.choice([2, 2, 3])
+    for ci in range(n_cls):
+        fields = []
+        for nm in NAMES[:rng.choice([1, 2, 2, 3])]:
+            # a nested class must be structurable under every registration state: a class with a converter-less field of a
+            # history type has no hook itself until that type is registered ("no hook can be found" for the CLASS: the
+            # eager-creation / inner-error regions F35 / F36, studied by the main stream, not here)
+            nestable = [i for i, (_, fs) in enumerate(out) if all(g["k"] or g["kind"] in ("int", "untyped") for g in fs)]
+            kind = rng.choice(["ht", "ht", "ht", "int", "untyped"] + (["nested"] if nestable else []))
+            f = {"name": nm, "kind": kind, "j": rng.randint(0, len(H_TYPES) - 1), "k": rng.random() < 0.75}
+            if kind == "nested":
+                f["j"] = rng.choice(nestable)
+            if kind == "untyped":
+                f["k"] = True
+            fields.append(f)
+        if ci == 0 and not any(f["kind"] == "ht" and f["k"] for f in fields):
+            fields[0] = {"name": fields[0]["name"], "kind": "ht", "j": 0, "k": True}
+        flds = {}
+        for f in fields:
+            kw = {}
+            if f["kind"] != "untyped":
+                kw["type"] = H_TYPES[f["j"]] if f["kind"] == "ht" else int if f["kind"] == "int" else out[f["j"]][0]
+            if f["k"]:
+                kw["converter"] = mk_conv("tag", "K" + f["name"])
+            flds[f["name"]] = attrs.field(**kw)
+        out.append((attrs.make_class("HC%d" % next(_uid), flds), fields))
+    return out
+
+
+def h_payload(rng, classes, ci, tuple_strat):
+    vals = []
+    for f in classes[ci][1]:
+        if f["kind"] == "nested":
+            vals.append(h_payload(rng, classes, f["j"], tuple_strat))
+        else:
+            vals.append(rng.choice(["12.50 EUR", "x", 7, "3", "boom" if rng.random() < 0.3 else "y"]))
+    return vals if tuple_strat else {f["name"]: v for f, v in zip(classes[ci][1], vals)}
+
+
+def h_expect(classes, ci, raw, prefer, regs, tuple_strat):
+    """the rule under the registrations made so far (`regs`: type index -> current hook version); raises = the call fails"""
+    out = []
+    for ix, f in enumerate(classes[ci][1]):
+        r = raw[ix] if tuple_strat else raw[f["name"]]
+        K = mk_conv("tag", "K" + f["name"]) if f["k"] else None
+        if K is not None and prefer:
+            v = r
+        elif f["kind"] == "untyped":
+            v = r
+        elif f["kind"] == "int":
+            v = int(r)
+        elif f["kind"] == "nested":
+            v = h_expect(classes, f["j"], r, prefer, regs, tuple_strat)
+        elif f["j"] in regs:
+            if r == "boom":
+                raise ValueError("hook refuses")
+            v = HVal(f["j"], regs[f["j"]], r)
+        elif K is None:
+            raise StructureHandlerNotFoundError("no hook", H_TYPES[f["j"]])
+        else:
+            v = r
+        out.append((f["name"], K(v) if K else v))
+    return ("I", classes[ci][0].__name__, out)
+
+
+def h_ff_sx(f):
+    ty = {"ht": "(ht %d)" % f["j"], "int": "(ty int)", "untyped": "-"}[f["kind"]]
+    return "(ff %s %s %s -)" % (terms.esc(f["name"]), ty, "(k tag %s)" % terms.esc("K" + f["name"]) if f["k"] else "-")
+
+
+def run_history(chk, drv, n_histories, stats):
+    r = chk.rng
+    cfgs = all_cfgs(legacy=(False,))
+    for _ in range(n_histories):
+        classes = h_make_classes(r)
+        apis = [r.choice(H_APIS) for _ in H_TYPES]   # one API per type in a history: the latest version wins under each
+        # steps: use / reg / copy; starts with a use of class 0 (a converter field of a type without hook), and a
+        # registration is always followed by uses
+        steps = [("use", 0)]
+        for _k in range(r.randint(3, 7)):
+            x = r.random()
+            if x < 0.4:
+                steps.append(("reg", r.randint(0, len(H_TYPES) - 1)))
+                steps.append(("use", r.randint(0, len(classes) - 1)))
+            elif x < 0.48:
+                steps.append(("copy", 0))
+            else:
+                steps.append(("use", r.randint(0, len(classes) - 1)))
+        if not any(s[0] == "reg" for s in steps):
+            steps += [("reg", 0), ("use", 0), ("use", len(classes) - 1)]
+        desc = " | ".join("HC%d(%s)" % (i, ", ".join("%s: %s%s" % (
+            f["name"], {"ht": "HT%d" % f["j"], "int": "int", "untyped": "-", "nested": "HC%d" % f["j"]}[f["kind"]],
+            " conv=K" if f["k"] else "") for f in fs)) for i, (_, fs) in enumerate(classes))
+        payload_seeds = [r.random() for _ in steps]
+        for c in cfgs:
+            conv = make_converter(c)
+            regs = {}
+            trace = []
+            # model observable: FIELDHIST (the machine of FieldConv/History.lean, theorem `C20_history_current`); dict strategy,
+            # classes without nested classes
+            modelled = not c["tuple"] and not any(f["kind"] == "nested" for _, fs in classes for f in fs)
+            msteps, impl_outs, oracle_held = [], [], True
+            for (op, arg), ps in zip(steps, payload_seeds):
+                if op == "reg":
+                    regs[arg] = regs.get(arg, 0) + 1
+                    h_register(conv, arg, apis[arg], regs[arg])
+                    trace.append("%s(HT%d, v%d)" % (apis[arg], arg, regs[arg]))
+                    msteps.append("(reg %d)" % arg)
+                    continue
+                if op == "copy":
+                    conv = conv.copy()
+                    trace.append("copy()")
+                    msteps.append("(copy)")
+                    continue
+                pl = h_payload(_random.Random(ps), classes, arg, c["tuple"])
+                trace.append("structure(%r, HC%d)" % (pl, arg))
+                try:
+                    want = h_expect(classes, arg, pl, c["prefer"], regs, c["tuple"])
+                except Exception:  # noqa: BLE001
+                    want = ("err",)
+                try:
+                    inst = conv.structure(pl, classes[arg][0])
+                    got = c_canon(inst)
+                except Exception:  # noqa: BLE001
+                    inst, got = None, ("err",)
+                if modelled:
+                    msteps.append("(use %d %s)" % (arg, terms.obj_sx(s_abs(pl))))
+                    impl_outs.append("err" if inst is None else terms.canon_sx(s_abs(inst)))
+                    oracle_held = oracle_held and got == want
+                chk.count("history|" + cfg_name(c) + "|" + desc + "|" + " ; ".join(trace), nontrivial=bool(regs),
+                          sample={"cfg": cfg_name(c), "classes": desc, "history": list(trace), "impl": repr(got)[:200]})
+                chk.note("history:cfg:" + cfg_name(c), "history:outcome:" + ("err" if got == ("err",) else "ok"),
+                         "history:use-after-%d-registrations" % min(len(regs), 3))
+                stats["history"] += 1
+                if got != want:
+                    stats["oracle_fail"] += 1
+                    chk.violation(
+                        f"C20 oracle (registration histories): after {' ; '.join(trace[:-1]) or 'nothing'} on one converter, {trace[-1]} gives "
+                        f"{got!r:.300}; the documented rule under the registrations made so far gives {want!r:.300} "
+                        f"[{cfg_name(c)} | classes {desc}]",
+                        {"op": "history-oracle", "cfg": c, "classes": desc, "history": list(trace), "impl": repr(got), "expected": repr(want)})
+                    break
+            if modelled and impl_outs:
+                rm = drv.ask("FIELDHIST %s (classes %s) (steps %s)" % (
+                    fcfg_sx(c), " ".join("(cls %s)" % " ".join(h_ff_sx(f) for f in fs) for _, fs in classes), " ".join(msteps)))
+                if not rm.startswith("(r"):
+                    raise lean.InfraError("driver rejected FIELDHIST: " + rm)
+                mouts = [s_model_outcome(p) for p in terms.parse_sx(rm)[1:]]
+                chk.note("corr:FIELDHIST")
+                for k, (oi, om) in enumerate(zip(impl_outs, mouts)):
+                    if om is None:
+                        chk.unmodelled += 1
+                    elif oi != om:
+                        if oracle_held:
+                            stats["corr_hist"].append((dict(cfg=c, classes=desc, history=list(trace), op="corr-history"), oi, om))
+                        else:
+                            stats["corr_fail_with_oracle_fail"] += 1
+                        break
+        prune_linecache()
+
+
 def run(chk: framework.Check):
     drv = lean.Driver()
     # nested world classes: no self-referential classes, and no identity field converters (`idconv`): inside a hook
@@ -875,7 +1328,7 @@ def run(chk: framework.Check):
     # top-level class, whose field types are the T of the property
     G = gen.Gen(chk.rng, recursive=False)
     stats = {"oracle_fail": 0, "corr_fail": [], "corr_fail_with_oracle_fail": 0, "in_scope": 0, "out_of_scope": 0,
-             "kinds_seen": set(), "generic": 0, "wrapped": 0}
+             "kinds_seen": set(), "generic": 0, "wrapped": 0, "cycles": 0, "history": 0, "corr_cycle": [], "corr_hist": []}
     run_generic(chk, 60 if chk.tier == "quick" else 600, stats)
     run_wrapped(chk, 44 if chk.tier == "quick" else 440, stats)
     n_worlds, per_world = (60, 10) if chk.tier == "quick" else (600, 12)
@@ -897,6 +1350,9 @@ def run(chk: framework.Check):
         run_random(chk, G, W, per_world, stats)
         made += 1
         prune_linecache()
+    # (the two round-3 streams run last: the streams above consume the PRNG exactly as they did before)
+    run_cycles(chk, drv, 34 if chk.tier == "quick" else 340, stats)
+    run_history(chk, drv, 40 if chk.tier == "quick" else 400, stats)
     # correspondence failures that no oracle failure accounts for: the model no longer describes the code
     for case, oi, om, oe in stats["corr_fail"][:5]:
         chk.violation(
@@ -904,6 +1360,10 @@ def run(chk: framework.Check):
             f"impl={oi[:200]} model={om[:200]} rule={oe[:200]} [{cfg_name(case['cfg'])} | {fields_sig(case['fields'])} | "
             f"presents={case['presents']} raws={[terms.canon_sx(x) for x in case['raws']]}]",
             case, found_input=False)
+    for opname, key in (("FIELDCYCLE", "corr_cycle"), ("FIELDHIST", "corr_hist")):
+        for case, oi, om in stats[key][:3]:
+            chk.violation(f"correspondence corr:C20:{opname} broken (theorems C20_* no longer tied to the code): impl={oi[:300]} model={om[:300]} "
+                          f"[{cfg_name(case['cfg'])} | {json.dumps(case, default=str)[:500]}]", case, found_input=False)
     # the witnesses of the recorded findings must still reproduce
     for f in chk.known:
         if not chk.known_hits.get(f["id"]):
@@ -916,13 +1376,16 @@ def run(chk: framework.Check):
                                 "cases_outside(F35/F36 regions, model still compared)": stats["out_of_scope"]}
     chk.extra["generic_stream(implementation-only oracle)"] = stats["generic"]
     chk.extra["wrapper_route_stream(implementation-only oracle)"] = stats["wrapped"]
-    chk.extra["correspondence_mismatches"] = len(stats["corr_fail"]) + stats["corr_fail_with_oracle_fail"]
+    chk.extra["reference_cycle_stream(implementation-only oracle)"] = stats["cycles"]
+    chk.extra["registration_history_stream(implementation-only oracle)"] = stats["history"]
+    chk.extra["correspondence_mismatches"] = (len(stats["corr_fail"]) + stats["corr_fail_with_oracle_fail"]
+                                              + len(stats["corr_cycle"]) + len(stats["corr_hist"]))
     chk.extra["oracle_failures(incl. recognised findings)"] = stats["oracle_fail"]
     drv.close()
 
 
 def replay(case):
-    if case.get("op") in ("generic-oracle", "wrapped-oracle", "wrapped-kind"):
+    if case.get("op") in ("generic-oracle", "wrapped-oracle", "wrapped-kind", "cycle-oracle", "history-oracle"):
         print("implementation-only stream case:", case)
         return 1
     drv = lean.Driver()
